@@ -5,6 +5,11 @@ import (
 	"fmt"
 )
 
+const (
+	maxBlockDepth    = 1000
+	tagBlockDepthKey = "pongo2.block.depth"
+)
+
 type tagBlockNode struct {
 	name string
 }
@@ -37,6 +42,18 @@ func (node *tagBlockNode) Execute(ctx *ExecutionContext, writer TemplateWriter) 
 	if lenBlockWrappers == 0 {
 		return ctx.Error("internal error: len(block_wrappers) == 0 in tagBlockNode.Execute()", nil)
 	}
+
+	// Blocks of a template hierarchy can contain each other through
+	// block.Super without any template including itself; bound the nesting
+	// instead of exhausting the stack.
+	depth, _ := ctx.Shared[tagBlockDepthKey].(int)
+	if depth >= maxBlockDepth {
+		return ctx.Error(fmt.Sprintf("maximum block nesting depth reached (max is %v); do blocks contain each other?", maxBlockDepth), nil)
+	}
+	ctx.Shared[tagBlockDepthKey] = depth + 1
+	defer func() {
+		ctx.Shared[tagBlockDepthKey] = depth
+	}()
 
 	blockWrapper := blockWrappers[lenBlockWrappers-1]
 	// "block" is restored afterwards, otherwise an enclosing block would
